@@ -119,6 +119,8 @@ def mk_replay(desc, frame, peaks, upsample, fail):
 
 
 def replay(body):
+    if 'frame_ints' in body.get('args', {}):
+        return cl.replay_case(body, 'C04')          # a failing input recorded by the model correspondence (cl.model_check)
     a = body['args']
     if 'huge_window' in a:
         from libertem_blobfinder.common import patterns as pat
@@ -182,7 +184,7 @@ def run(ctx):
         for u in us:
             rec.clear()
             cl.run_fast(pattern, frame, [(8, 8)], upsample=u)
-            got_regions.append(int(rec[0][0]))
+            got_regions.append(int(rec[0][0]) if rec else None)       # None: the upsampling step did not run for this factor
     finally:
         blc._upsampled_dft = orig
     mreg = ctx.coq_eval('ups', 'Model.Upsample', ['map us_region [%s]' % '; '.join(str(u) for u in us)])[0]
@@ -215,6 +217,20 @@ def run(ctx):
         n = int(rng.integers(1, 8))
         peaks = [(int(rng.integers(-2 * c, fy + 2 * c + 1)), int(rng.integers(-2 * c, fx + 2 * c + 1))) for _ in range(n)]
         upsample = [True, 2, 3, 5, 7, 10, 15, 20, 31, 50][int(rng.integers(0, 10))]
+        if k % 5 == 4:
+            # plateaus: isolated events under a flat-topped pattern give a correlation map with a flat maximum; the first maximum is on the
+            # rim of the plateau and the centre of mass of its neighbourhood about a pixel away (the upsampled bound is tighter than that)
+            pr = float(rng.choice([2.5, 3.5, 2.5, 1.5, 3.0, 5.0]))       # half-integer radii: the rim of the plateau is sharpest
+            desc = {'kind': 'Circular', 'radius': pr, 'search': float(rng.choice([pr + 1.0, 2 * pr])), 'radius_outer': None}
+            pattern = cl.pattern_from_desc(desc)
+            c = pattern.get_crop_size()
+            fy, fx = int(rng.integers(2 * c + 1, 48)), int(rng.integers(2 * c + 1, 48))
+            frame, kind = np.zeros((fy, fx), dtype=np.float32), 'events'
+            ev = [(int(rng.integers(0, fy)), int(rng.integers(0, fx))) for _ in range(int(rng.integers(1, 4)))]
+            for (ey, ex) in ev:
+                frame[ey, ex] = float(rng.choice([1.0, 1.0, 30.0]))
+            peaks = [(ey + int(rng.integers(-1, 2)), ex + int(rng.integers(-1, 2))) for (ey, ex) in ev]
+            upsample = [True, 2, 3, True][int(rng.integers(0, 4))]
         ctx.hist('data', kind)
         ctx.hist('pattern', desc['kind'])
         ctx.hist('upsample', upsample)
@@ -251,5 +267,5 @@ def run(ctx):
                     'weights), positive denominator at the first maximum (no 0/0), in-bounds reads, elevation finite for maps >= 4x4, upsampled grid bound '
                     '0.75+0.5/u. Tie: store_int vs numpy for the dtypes the batch helpers actually return, upsampled region size spied from the running '
                     'code, pipeline model vs outputs; oracle: the statement on NaN-guarded frames of 7 data kinds, |values| <= 1e6.',
-        rule='(S) random patterns (5 classes, crop size 2..7), shapes 2..47 (every sixth frame smaller than the pattern), 1..7 peaks in [-2c, shape+2c], upsample in {True,2..50}, low-level (both crop back-ends) and high-level '
+        rule='(S) random patterns (5 classes, crop size 2..7), shapes 2..47 (every sixth frame smaller than the pattern; every fifth case isolated events under a flat-topped pattern: plateaus), 1..7 peaks in [-2c, shape+2c], upsample in {True,2..50}, low-level (both crop back-ends) and high-level '
              'entry points, upsampling on/off compared; distinct by (pattern, shape, peaks, upsample, data kind).')
